@@ -170,10 +170,23 @@ fn history_chunk(cnfs: &[Vec<Clause>], order: &[usize], store: &str, cn: &mut Co
         ($b:expr) => {{
             let b = $b;
             rsdd::verif::set_table_capacity(0);
+            // the CNF of all 2^nv full-width clauses: unsatisfiable, which only the search finds
+            // (no unit clause, no conflict in the initial propagation); it is compiled first and
+            // again after every eighth CNF, so that whatever a failed search leaves behind in the
+            // builder meets the next compilation
+            let poison: Vec<Clause> = (0..(1usize << nv)).map(|a| (0..nv).map(|v| (v, (a >> v) & 1 == 1)).collect()).collect();
+            let mut since = 8usize;
             for c in cnfs.iter() {
                 if num_vars(c) != nv {
                     continue;
                 }
+                if since >= 8 && nv <= 4 {
+                    since = 0;
+                    if let Some((key, what)) = check_with(&b, &poison, nv, cn) {
+                        rep.violation(format!("topdown:{}", key), format!("cnf {} order {:?} store {} (long-lived builder): {}", cnf_json(&poison), order, store, what), case_json(&poison, order, store));
+                    }
+                }
+                since += 1;
                 rep.transitions += 1;
                 // between two compilations of the long-lived builder: the builder's statistics
                 // queries (they hash every node of the table)
